@@ -288,7 +288,12 @@ type hop struct {
 	Flags  callflag.CallFlag
 }
 
-var chainMethods = []string{"probe", "safeProbe", "tryProbe"}
+var chainMethods = []string{"probe", "safeProbe", "tryProbe", "ovProbe", "voProbe"}
+
+// safeChainMethod tells whether the three-parameter method of that name is
+// marked safe in the probe's manifest.
+func safeChainMethod(m string) bool { return m == "safeProbe" || m == "ovProbe" }
+
 var actNames = map[int]string{0: "none", 1: "put", 2: "notify", 3: "localPut", 4: "delete", 5: "localDelete", 6: "loadScript-notify", 7: "CALLT-GAS.transfer"}
 
 func (v *env) chainScript(hops []hop, act, mid int, key []byte) []byte {
@@ -474,7 +479,7 @@ func runChains(run *ev.Run, v *env, depth3 int, exhaustive3 bool) {
 					violation(v.stage, "callee-flags-exceed-requested:read-by-GetCallFlags", id,
 						fmt.Sprintf("hop %d read flags %04b inside the callee, the caller requested %04b", k+1, got, req), wit)
 				}
-				if got != prev&req && !(cl.hops[k].Method == "safeProbe") {
+				if got != prev&req && !safeChainMethod(cl.hops[k].Method) {
 					cnt.add("callee_flags_differ_from_intersection", 1)
 				}
 				prev = got
@@ -483,7 +488,7 @@ func runChains(run *ev.Run, v *env, depth3 int, exhaustive3 bool) {
 		// Safe methods: nothing written at or below a hop marked safe survives.
 		safeFrom := -1
 		for k, h := range cl.hops {
-			if h.Method == "safeProbe" {
+			if safeChainMethod(h.Method) {
 				safeFrom = k
 				break
 			}
